@@ -17,6 +17,10 @@ Client replay sub-workload (~12% of the cases): flows recorded under upstream / 
 HttpLayer driven sans-io, hooks delivered to the real UpstreamAuth) while options.mode[0] is each of upstream / regular /
 reverse / transparent / socks5; same oracle, with "configured proxy / reverse target" taken from the CURRENT mode.
 
+Shared-destination histories (45% of the regular/upstream cases): 2-5 absolute-form requests on the one client connection go
+to the SAME host:port with mixed schemes (https -> CONNECT + real TLS in the tunnel, http -> absolute-form to the proxy), with
+tunnels kept open or closed by the peer; every endpoint speaks TLS iff it is greeted with a ClientHello.
+
 Monitor (M2, wire boundary, independent RFC 9112 reader + stdlib TLS as decryptor): the base64 credential and its raw
 user / password strings are searched in
   search.conn        every byte written to every upstream connection (ciphertext included),
@@ -44,7 +48,7 @@ LEVEL = "exploration"
 ENGINE = "sansio"
 BUDGET = {"quick": (350, 18), "thorough": (40000, 220)}
 WORKERS = {"quick": 4, "thorough": 16}
-REQUIRED = ["replay.option_history.auth-then-mode", "replay.cases", "replay.forwarded", "replay.cred_to_proxy", "connect.answered_by_addon_2xx", "connect.refused_by_addon", "upstream.closes_after_response", "tunnel.reconnected", "hook.server_disconnected", "option_change.unset_to_set", "option_change.set_to_other", "option_change.set_to_unset", "option_change.applied", "search.conn", "search.tunnel", "search.tls_plain", "cred.in_connect_head", "cred.in_plain_to_proxy", "cred.to_reverse_target", "forwarded.no_cred_expected"]
+REQUIRED = ["history.mixed_scheme_same_destination", "history.https_request_seen_inside_tunnel_tls", "replay.option_history.auth-then-mode", "replay.cases", "replay.forwarded", "replay.cred_to_proxy", "connect.answered_by_addon_2xx", "connect.refused_by_addon", "upstream.closes_after_response", "tunnel.reconnected", "hook.server_disconnected", "option_change.unset_to_set", "option_change.set_to_other", "option_change.set_to_unset", "option_change.applied", "search.conn", "search.tunnel", "search.tls_plain", "cred.in_connect_head", "cred.in_plain_to_proxy", "cred.to_reverse_target", "forwarded.no_cred_expected"]
 TECHNIQUE = "runtime monitoring: sans-io conversations with real addons, unique-token search on every wire / tunnel / decrypted stream"
 RULE = (
     "case = (mode, upstream_auth timeline: initially unset or a unique random credential, 0-2 runtime changes between items "
@@ -208,21 +212,41 @@ def req(r, k, form, host, port, scheme="http"):
     return tag.encode(), raw
 
 
+def tls_view(peer):
+    """-> (speaks TLS, application peer | None, plaintext the application peer received) for TLS / auto-detecting endpoints."""
+    if isinstance(peer, P.AutoTlsPeer):
+        if peer.delegate is None:
+            return False, None, b""
+        if peer.tls:
+            return True, peer.delegate.inner, peer.delegate.plaintext()
+        return False, peer.delegate, bytes(peer.delegate.received)
+    if isinstance(peer, P.TlsServerPeer):
+        return True, peer.inner, peer.plaintext()
+    return False, peer, bytes(peer.received) if peer is not None else b""
+
+
 def build_case(r):
     mode = r.choice(MODES)
     fam = mode.split(":")[0]
     items = []  # dict(kind, tag?, raw, tunnel: bool)
     k = 0
-    spec = {"mode": mode, "fam": fam, "items": items, "dest": None}
+    spec = {"mode": mode, "fam": fam, "items": items, "dest": None, "shared": False}
     if fam in ("regular", "upstream"):
-        for _ in range(r.choice([0, 1, 1, 2, 3])):
-            scheme = "https" if r.random() < 0.2 else "http"
+        # "shared destination" histories: several requests on the one client connection go to the SAME host:port with mixed
+        # schemes (https then http, http then https) -- every endpoint speaks TLS iff it is greeted with a ClientHello
+        shared = r.random() < 0.45
+        spec["shared"] = shared
+        pool = [(r.choice(HOSTS), r.choice([80, 443, 8080, 8443])) for _ in range(r.choice([1, 1, 2]))]
+        for _ in range(r.choice([2, 3, 4, 5]) if shared else r.choice([0, 1, 1, 2, 3])):
+            scheme = "https" if r.random() < (0.5 if shared else 0.2) else "http"
             host = r.choice(HOSTS)
             port = r.choice([443, 8443] if scheme == "https" else [80, 80, 8080])
+            if shared:
+                host, port = r.choice(pool)
             form = "absolute" if r.random() < 0.9 or scheme == "https" else "origin"
             tag, raw = req(r, k, form, host, port, scheme)
             k += 1
-            items.append({"kind": f"plain-{scheme}-{form}", "tag": tag, "raw": raw, "tunnel": False})
+            items.append({"kind": f"plain-{scheme}-{form}", "tag": tag, "raw": raw, "tunnel": False, "dest3": (host, port, scheme)})
         if r.random() < 0.65 or not items:
             host = r.choice(HOSTS)
             inner = r.choice(["http", "http", "http", "raw", "tls"])
@@ -334,9 +358,7 @@ def run_case(ctx, tctx, ua, chain):
         return b"HTTP/1.1 407 Proxy Authentication Required\r\nProxy-Authenticate: Basic realm=\"up\"\r\nContent-Length: 0\r\n\r\n", False
 
     def tunnel_factory(msg):
-        port = msg["target"].rsplit(b":", 1)[-1]
-        o = P.OriginPeer(responder)
-        return P.TlsServerPeer(o) if port in (b"443", b"8443") else o
+        return P.AutoTlsPeer(P.OriginPeer(responder))  # TLS iff greeted with a ClientHello
 
     def server_factory(drv, conn):
         addr = tuple(conn.address[:2])
@@ -345,7 +367,7 @@ def run_case(ctx, tctx, ua, chain):
         else:
             p = P.OriginPeer(responder)
         drv.connected(conn)
-        return P.TlsServerPeer(p) if addr[1] in TLS_PORTS else p
+        return P.AutoTlsPeer(p)
 
     # a second addon answers the client's CONNECT itself (2xx: tunnel established anyway / non-2xx: refused), placed
     # before or after the real UpstreamAuth in the hook chain
@@ -430,32 +452,34 @@ def run_case(ctx, tctx, ua, chain):
         if auth_on and hit(payload):
             seen_where.add("tunnel")
             report("tunnel", conn, payload, item_of(payload[max(0, min(payload.find(n) for n in hit(payload)) - 400):]))
-        if isinstance(tpeer, P.TlsServerPeer):
-            plain = bytes(tpeer.inner.received)
+        t_tls, _t_app, plain = tls_view(tpeer) if tpeer is not None else (False, None, b"")
+        if t_tls:
             ctx.count("search.tls_plain")
             if plain:
                 ctx.count("tls_plain.nonempty")
+                if TAG.search(plain):
+                    tunnel_tls_tags.extend(TAG.findall(plain))
             if auth_on and hit(plain):
                 seen_where.add("tunnel-tls")
-                report("tunnel-tls", conn, plain, item_of(plain))
+                report("tunnel-tls", conn, plain, item_of(plain[max(0, min(plain.find(n) for n in hit(plain)) - 400):]))
 
     for st in answerer.answered:
         ctx.count("connect.answered_by_addon_2xx" if 200 <= st < 300 else "connect.refused_by_addon")
     ctx.count("hook.server_disconnected", sum(1 for h in d.hooks if h[1] == "server_disconnected"))
     n_tunnels = 0
+    tunnel_tls_tags = []
     for conn in d.servers:
         raw = bytes(d.out[conn])
         peer = d.peers.get(conn)
         addr = tuple(conn.address[:2])
         ctx.count("search.conn")
         app = raw
-        inner_peer = peer
-        if isinstance(peer, P.TlsServerPeer):
+        is_tls, inner_peer, plain_ = tls_view(peer)
+        if is_tls:
             # ciphertext must not contain it either (would mean it was sent in the clear before/around the handshake)
             if auth_on and hit(raw):
                 report("tls-ciphertext", conn, raw)
-            app = bytes(peer.inner.received)
-            inner_peer = peer.inner
+            app = plain_
             ctx.count("search.tls_plain")
             if app:
                 ctx.count("tls_plain.nonempty")
@@ -490,8 +514,14 @@ def run_case(ctx, tctx, ua, chain):
 
     if fam == "upstream" and n_tunnels >= 2 and any(it["kind"].startswith("inner-http") for it in spec["items"]):
         ctx.count("tunnel.reconnected")  # the client's single tunnel was served by >= 2 upstream CONNECTs
+    d3 = [it["dest3"] for it in spec["items"] if it.get("dest3")]
+    mixed = any(a[:2] == b[:2] and a[2] != b[2] for a in d3 for b in d3)
+    if fam == "upstream" and mixed:
+        ctx.count("history.mixed_scheme_same_destination")
+        if any(it.get("dest3") and it["dest3"][2] == "https" and it["tag"] in tunnel_tls_tags for it in spec["items"]):
+            ctx.count("history.https_request_seen_inside_tunnel_tls")
     kinds = tuple(it["kind"] for it in spec["items"])
-    sig = (mode.split("//")[0], tuple("set" if c else "unset" for c in timeline), tuple(j for j, _ in changes), kinds, connect_answer if "connect" in kinds else None, (answer_plan, answerer_first) if "connect" in kinds else None, strategy, tuple(sorted(seen_where)))
+    sig = (mode.split("//")[0], ("shared", mixed) if spec["shared"] else None, tuple("set" if c else "unset" for c in timeline), tuple(j for j, _ in changes), kinds, connect_answer if "connect" in kinds else None, (answer_plan, answerer_first) if "connect" in kinds else None, strategy, tuple(sorted(seen_where)))
     sample = {"mode": mode, "upstream_auth_timeline": timeline, "option_changes_before_item": changes, "items": [it["kind"] for it in spec["items"]], "credential_seen_in": sorted(seen_where), "upstream_conns": [repr(c.address) for c in d.servers]}
     return sig, auth_on and reached > 0, sample
 
